@@ -839,8 +839,75 @@ fn run_c11(ctx: &Ctx) -> i32 {
         reach.steps = 1 + fref.len() as u64;
         JobOut { artifact, violations, reach, nontrivial: true, fired: vec![(format!("session-leader:{}", leader.fault.split('(').next().unwrap_or("")), 1u64)], sample: if j == 0 { Some(json!({"session_leader": leader.to_json(), "followers": fref.len()})) } else { None }, label: (0, format!("session-{}", leader.entry.name())) }
     });
-    let new = report_all(ctx, &[&b1, &b2, &b3, &b4]);
-    write_partial(ctx, "fault_enumeration", &[&b1, &b2, &b3, &b4], new, rule, &assumptions, json!({"enumerated_cases": n_cases, "process_histories": n_leaders, "followers_per_history": followers.len()}), Some("entry point x fault kind x position x confidence kind for streams of length <= 6: exhaustive"));
+    // (5) neighbour histories: a fresh process serves, for each faulty request, the valid requests
+    // closest to it (same stream with the bad record repaired, padded to a sufficient / equal
+    // length, an ordinary quantile, counter pairs sharing two of {k, n, |n-k|}) and then the faulty
+    // request itself, which is judged as if it were the first. What the library remembers between
+    // calls must identify a request completely; a memo consulted before validation, or keyed by a
+    // derived quantity, hands the neighbour's answer to the invalid request.
+    // the faulty requests of this batch: the leaders of (4) plus every faulty counter request
+    // (n, k [, rate / quantile]) under one confidence - for counters the distance between a bad
+    // pair and its valid neighbours is itself a dimension (k = n + 1 has no valid neighbour with
+    // two failures, k = 2n + 7 has)
+    let mut nb_leaders: Vec<Case> = leaders.clone();
+    for c in &cases_v {
+        if c.flt == machines::Flt::Int && c.fault != "none" && (c.conf == 18 || c.entry == cases::Entry::PropIsSignificant) && !nb_leaders.iter().any(|l| l.entry == c.entry && l.n == c.n && l.k == c.k && l.q == c.q && l.conf == c.conf) {
+            nb_leaders.push(c.clone());
+        }
+    }
+    let lref = &nb_leaders;
+    let group = 12usize;
+    let n_groups = (nb_leaders.len() + group - 1) / group;
+    let b5: Batch<Art> = runner::run_batch("neighbour histories (a fresh process serves the valid requests closest to a faulty one, then the faulty one)", n_groups as u64, false, move |j, stats| {
+        let mine = &lref[(j as usize) * group..((j as usize + 1) * group).min(lref.len())];
+        let mut seq: Vec<Case> = Vec::new();
+        let mut group_start: Vec<usize> = Vec::new();
+        for f in mine {
+            let start = seq.len();
+            for n in cases::neighbours_of(f) {
+                seq.push(n);
+                group_start.push(start);
+            }
+            seq.push(f.clone());
+            group_start.push(start);
+            stats.inc("neighbour_histories");
+        }
+        stats.add("neighbour_requests", seq.len() as u64);
+        let scan = |fs: &[Case]| -> Option<(usize, Violation)> {
+            let file = std::env::temp_dir().join(format!("sim_nbr_{}_{}.json", std::process::id(), j));
+            std::fs::write(&file, json!({"leader": Value::Null, "followers": fs.iter().map(|c| c.to_json()).collect::<Vec<_>>()}).to_string()).expect("write session file");
+            let outp = std::process::Command::new(std::env::current_exe().expect("current_exe")).arg("session-scan").arg(&file).output().expect("spawn session child");
+            std::fs::remove_file(&file).ok();
+            let so = String::from_utf8_lossy(&outp.stdout).to_string();
+            let line = so.lines().find(|l| l.starts_with("SESSION-VIOLATION "))?;
+            let x: Value = serde_json::from_str(&line["SESSION-VIOLATION ".len()..]).ok()?;
+            let inv = format!("after-earlier-requests-in-the-same-process/{}", x["invariant"].as_str().unwrap_or(""));
+            Some((x["follower"].as_u64().unwrap_or(0) as usize, Violation::new(x["property"].as_str().unwrap_or("C11"), &inv, x["slot"].as_u64().unwrap_or(0) as u16, x["detail"].as_str().unwrap_or("").to_string())))
+        };
+        let mut violations = Vec::new();
+        let mut artifact = None;
+        let mut from = 0usize;
+        while from < seq.len() {
+            let Some((i, v)) = scan(&seq[from..]) else { break };
+            let at = from + i;
+            // guilty on its own: the case batch's business, carry on behind it
+            if scan(std::slice::from_ref(&seq[at])).is_some() {
+                from = at + 1;
+                continue;
+            }
+            let own = &seq[group_start[at]..=at];
+            let cs: Vec<Case> = if own.len() >= 2 && scan(own).map(|(k, _)| k + 1 == own.len()).unwrap_or(false) { own.to_vec() } else { seq[..=at].to_vec() };
+            artifact = Some(Art::Session(cs));
+            violations.push(v);
+            break;
+        }
+        let mut reach = Reach::default();
+        reach.shape = mine.first().map(cases::case_shape).unwrap_or(0) ^ 0x4E42_52;
+        reach.steps = seq.len() as u64;
+        JobOut { artifact, violations, reach, nontrivial: true, fired: vec![("neighbour-history".to_string(), mine.len() as u64)], sample: if j == 0 { Some(json!({"neighbour_history": seq.iter().take(8).map(|c| c.to_json()).collect::<Vec<_>>()})) } else { None }, label: (0, format!("neighbours-{}", mine.first().map(|c| c.entry.name()).unwrap_or(""))) }
+    });
+    let new = report_all(ctx, &[&b1, &b2, &b3, &b4, &b5]);
+    write_partial(ctx, "fault_enumeration", &[&b1, &b2, &b3, &b4, &b5], new, rule, &assumptions, json!({"enumerated_cases": n_cases, "process_histories": n_leaders, "followers_per_history": followers.len(), "neighbour_history_groups": n_groups}), Some("entry point x fault kind x position x confidence kind for streams of length <= 6: exhaustive"));
     if new > 0 {
         1
     } else {
